@@ -5,6 +5,7 @@ Race-freedom itself is not a theorem (the model has no memory accesses); the log
 the races is (`rotation_lost_update_witness`).
 -/
 import Vegeta.Model.Dial
+import Vegeta.Extracted.Facts
 namespace Vegeta.Props.C18
 open Vegeta.Go Vegeta.Model.Dial
 
@@ -738,5 +739,49 @@ example :
       | .ok (out, _, _) => out | _ => []) = [{ host := [20], port := [81] }] ∧
     (match dialVia w [.dns [], .connectTo m] [] { host := [1], port := [80] } with
       | .ok (out, _, _) => out | _ => []) = [{ host := [10], port := [80] }] := by decide
+
+/-! ### facts regenerated from the source (go/ast): what the correspondence cannot observe
+
+The model treats the ConnectTo rotation as an unsynchronised read-modify-write followed by a
+second read, the shuffle and the compaction as writes to the very slice the cache handed out,
+and the custom resolver's rotation as one atomic step.  These obligations compare that with
+the current source text; they break (and force the model to be revisited) when the code
+changes, e.g. when a lock, an atomic operation or a copy is added. -/
+
+/-- the two statements executed for a mapped address, with no lock and no atomic operation
+anywhere in the dial closure of `ConnectTo` -/
+theorem facts_connect_to_unsynchronised_rmw :
+    Vegeta.Extracted.c18ConnectToFound = true ∧ Vegeta.Extracted.c18ConnectToSyncCalls = 0 ∧
+    Vegeta.Extracted.c18ConnectToMappedStmts =
+      [ [99, 109, 46, 110, 32, 61, 32, 40, 99, 109, 46, 110, 32, 43, 32, 49, 41, 32, 37, 32, 108, 101, 110, 40, 99, 109, 46, 97, 100, 100, 114, 115, 41],   -- cm.n = (cm.n + 1) % len(cm.addrs)
+        [97, 100, 100, 114, 32, 61, 32, 99, 109, 46, 97, 100, 100, 114, 115, 91, 99, 109, 46, 110, 93] ]                -- addr = cm.addrs[cm.n]
+    := by decide
+
+/-- the slice returned by `resolver.LookupHost` is shuffled (swap on the same variable) and
+handed to `firstOfEachIPFamily` without being reassigned/copied in between, inside a closure
+with no lock and no atomic operation; `firstOfEachIPFamily` builds its result in `ips[:0]` -/
+theorem facts_dns_shuffle_and_compaction_in_place :
+    Vegeta.Extracted.c18DnsLookupVar = [105, 112, 115] ∧                                   -- ips
+    Vegeta.Extracted.c18DnsShuffleLen = [108, 101, 110, 40, 105, 112, 115, 41] ∧                             -- len(ips)
+    Vegeta.Extracted.c18DnsShuffleSwap = [105, 112, 115, 91, 105, 93, 44, 32, 105, 112, 115, 91, 106, 93, 32, 61, 32, 105, 112, 115, 91, 106, 93, 44, 32, 105, 112, 115, 91, 105, 93] ∧     -- ips[i], ips[j] = ips[j], ips[i]
+    Vegeta.Extracted.c18DnsAssignsBeforeShuffle = 0 ∧
+    Vegeta.Extracted.c18DnsFoeAssign = [105, 112, 115, 32, 61, 32, 102, 105, 114, 115, 116, 79, 102, 69, 97, 99, 104, 73, 80, 70, 97, 109, 105, 108, 121, 40, 105, 112, 115, 41] ∧        -- ips = firstOfEachIPFamily(ips)
+    Vegeta.Extracted.c18DnsSyncCalls = 0 ∧
+    Vegeta.Extracted.c18FoeEachInit = [101, 97, 99, 104, 32, 61, 32, 105, 112, 115, 91, 58, 48, 93] ∧                         -- each = ips[:0]
+    Vegeta.Extracted.c18FoeEachAppend = [101, 97, 99, 104, 32, 61, 32, 97, 112, 112, 101, 110, 100, 40, 101, 97, 99, 104, 44, 32, 105, 112, 115, 91, 105, 93, 41]            -- each = append(each, ips[i])
+    := by decide
+
+/-- the custom resolver advances its counter with one atomic add and uses the returned value -/
+theorem facts_resolver_rotation_atomic :
+    Vegeta.Extracted.c18ResolverAddressBody =
+      [114, 101, 116, 117, 114, 110, 32, 114, 46, 97, 100, 100, 114, 115, 91, 97, 116, 111, 109, 105, 99, 46, 65, 100, 100, 85, 105, 110, 116, 54, 52, 40, 38, 114, 46, 105, 100, 120, 44, 32, 49, 41, 37, 117, 105, 110, 116, 54, 52, 40, 108, 101, 110, 40, 114, 46, 97, 100, 100, 114, 115, 41, 41, 93]   -- return r.addrs[atomic.AddUint64(&r.idx, 1)%uint64(len(r.addrs))]
+    := by decide
+
+/-- the command applies `DNSCaching` before `ConnectTo` (so `ConnectTo` is the outer layer), after
+every other option that replaces the transport's dial function -/
+theorem facts_command_option_order :
+    Vegeta.Extracted.c18CommandDialOptionOrder =
+      [ [76, 111, 99, 97, 108, 65, 100, 100, 114], [75, 101, 101, 112, 65, 108, 105, 118, 101], [72, 50, 67], [85, 110, 105, 120, 83, 111, 99, 107, 101, 116], [68, 78, 83, 67, 97, 99, 104, 105, 110, 103], [67, 111, 110, 110, 101, 99, 116, 84, 111] ]
+    := by decide
 
 end Vegeta.Props.C18
